@@ -33,6 +33,10 @@ func ruleC09(w *World) {
 	w.ruleDecodedInts("C09.R8")
 	w.floor("C09.R10", 10)
 	w.ruleCgoAliasing("C09.R10")
+	// R13: the ECDSA decoders report every input that is not of the documented size and shape through the typed error —
+	// they never hand the decision to a library parser that accepts other encodings (= C05.R2g for the ECDSA decoders)
+	w.floor("C09.R13", 6)
+	w.importObligations(ruleC05, "C05.R2g", "C09.R13", func(o Obl) bool { return strings.HasPrefix(o.Key, "(*ecdsaAlgo).") })
 	d := w.dkg("C09.R4")
 	if d != nil {
 		w.ruleMessageParsing("C09.R4", d)
